@@ -5,6 +5,7 @@ import (
 	"flag"
 	"fmt"
 	"os"
+	"strings"
 
 	"github.com/nspcc-dev/dbft/verifh/checks"
 	"github.com/nspcc-dev/dbft/verifh/ev"
@@ -13,7 +14,26 @@ import (
 func main() {
 	prop := flag.String("prop", "", "property id")
 	only := flag.Int("only", -1, "execute only run index i (replay)")
+	fw := flag.String("fuzzworker", "", "internal: seed:lo:hi:progressfile")
+	fone := flag.Int("fuzzone", -1, "replay one fuzz case of C11")
 	flag.Parse()
+	if *fw != "" {
+		var seed int64
+		var lo, hi int
+		parts := strings.SplitN(*fw, ":", 4)
+		if len(parts) != 4 {
+			os.Exit(2)
+		}
+		fmt.Sscan(parts[0], &seed)
+		fmt.Sscan(parts[1], &lo)
+		fmt.Sscan(parts[2], &hi)
+		checks.FuzzWorker(seed, lo, hi, parts[3])
+		return
+	}
+	if *fone >= 0 {
+		checks.FuzzOne(ev.New(*prop).Seed, *fone)
+		return
+	}
 	checks.Only = *only
 	f, ok := checks.Registry[*prop]
 	if !ok {
